@@ -723,3 +723,43 @@ theorem agree_fuel (defs : Defs) : ∀ fuel, Agree (evaluator defs fuel) (projec
       exact ⟨_, _, rfl, rfl, fun v => checkWith_eq_project _ _ ih t v⟩
 
 end Dmn.ID
+
+/-! ## white space around the type reference of a variable (`VarType.ofRef`) -/
+
+namespace Dmn.ID
+
+theorem dropWhile_ws_all (s : Name) (h : s.all isWs = true) : s.dropWhile isWs = [] := by
+  induction s with
+  | nil => rfl
+  | cons c cs ih =>
+    simp only [List.all_cons, Bool.and_eq_true] at h
+    simp [List.dropWhile_cons, h.1, ih h.2]
+
+theorem dropWhile_ws_append_left (pre r : Name) (h : pre.all isWs = true) :
+    (pre ++ r).dropWhile isWs = r.dropWhile isWs := by
+  induction pre with
+  | nil => rfl
+  | cons c cs ih =>
+    simp only [List.all_cons, Bool.and_eq_true] at h
+    simp [List.dropWhile_cons, h.1, ih h.2]
+
+theorem dropWhile_ws_append_right (r post : Name) (h : post.all isWs = true) :
+    ((r ++ post).dropWhile isWs).reverse.dropWhile isWs = (r.dropWhile isWs).reverse.dropWhile isWs := by
+  induction r with
+  | nil => simp [dropWhile_ws_all post h]
+  | cons c cs ih =>
+    by_cases hc : isWs c = true
+    · simp only [List.cons_append, List.dropWhile_cons, hc, if_true]
+      exact ih
+    · have hc' : isWs c = false := by simpa using hc
+      simp only [List.cons_append, List.dropWhile_cons, hc', Bool.false_eq_true, if_false,
+        List.reverse_cons, List.reverse_append, List.append_assoc]
+      exact dropWhile_ws_append_left _ _ (by simpa using h)
+
+/-- `str::trim` does not see white space added around a text. -/
+theorem trim_white_space (pre r post : Name) (hpre : pre.all isWs = true) (hpost : post.all isWs = true) :
+    trim (pre ++ r ++ post) = trim r := by
+  unfold trim
+  rw [List.append_assoc, dropWhile_ws_append_left _ _ hpre, dropWhile_ws_append_right _ _ hpost]
+
+end Dmn.ID
